@@ -24,7 +24,9 @@ CLAIMED = {
             'deterministic simulation: complete single/double fault enumeration per cell + seeded multi-fault exploration, history oracle',
             'Every single fault (drop, duplicate, delay x4) at every frame and, for marked cells, every pair of faults over the transaction '
             'of each grid cell is executed against the real stack under a virtual clock; plus seeded exploration with hashed multi-fault '
-            'plans, silence, crash/restart, stalls, clock steps, IOCB cancel/timeout and slow applications. Oracle: exactly one outcome per '
+            'plans, silence, crash/restart, stalls, clock steps, IOCB cancel/timeout, slow applications, unconfirmed traffic to the peer that owes an answer, follow-up requests '
+            'submitted from inside outcome callbacks and many timers of mixed magnitude in the one scheduler. In-run invariants: the scheduler head is the earliest pending entry, no '
+            'finished transaction sits in the scheduler at any outcome. Oracle: exactly one outcome per '
             'request, outcome within a bound computed from the configured timers, no transaction/timer/queue residue at quiescence, no '
             'client frame for the transaction after its outcome. Exhaustive over the enumerated placements only; the rest is sampling.',
             'Trusted: CPython, the harness decoders/attribution, one shared virtual clock for all nodes, the generous C04.b bound.',
@@ -32,7 +34,7 @@ CLAIMED = {
     'C05': ('fault_enumeration',
             'deterministic simulation: complete length sweeps and single-fault enumeration + seeded multi-fault exploration; byte-exact payload oracle and independent wire-discipline monitor',
             'Fault-free transfer of every payload length 0..4*seg+2 per direction, every single fault (drop, duplicate x3, delay x3) at every frame '
-            'of boundary-length transfers for window pairs, long payloads across the 8-bit sequence wrap, plus seeded multi-fault exploration '
+            'of boundary-length transfers for window pairs, long payloads across the 8-bit sequence wrap (fault-free, and every single fault at the segments around the wrap), plus seeded multi-fault exploration '
             '(hashed plans, crash/restart mid-stream, stalls, reordering). Oracles: payload delivered to either application is octet-identical to '
             'what was submitted (else abort), every emitted segment carries the right slice / sequence number / more-follows and stays inside the '
             'window granted by the segment-acks delivered to the sender (independent decoder and encoder), any single fault is repaired and the '
@@ -54,24 +56,25 @@ CLAIMED = {
             'A complete BACnet/IP device (real UDPMultiplexer/AnnexJ/BIPSimple/NSAP/SMAP/ASAP/application with read/write/RPM/COV/DCC/Who-Is services) runs on an '
             'in-memory datagram director that keeps the deferred hand-off of the real socket layer. Every single-octet substitution from a value set, every truncation '
             'and every insertion of one valid frame per service is injected in a fresh world, and seeded batches mix valid requests with garbage at the link, network '
-            'and application layer in one loop batch. Oracles: a datagram the harness\' own narrow classifier finds well framed gets exactly one reply with its invoke id; '
+            'and application layer in one loop batch; segmented conversations (answers of 8+ segments, right and odd segment-acks, duplicates, aborts, up to four requesters incl. two routed ones with equal MAC and invoke id) '
+            'and timed DeviceCommunicationControl episodes; the device application remembers I-Am announcements. In-run invariant: a transaction sits in the scheduler at most once and never after it finished. Oracles: a datagram the harness\' own narrow classifier finds well framed gets exactly one reply with its invoke id; '
             'no transaction or transaction timer is left; valid requests queued with garbage are answered; two follow-up ReadProperty requests return the right values.',
             'Trusted: harness encoder/decoder and the narrow well-framed classifier; a segmented ack counts as one reply; accepted DeviceCommunicationControl legitimately silences the device.',
             'DESIGN.md section 3 (C10)'),
     'C11': ('exploration',
             'deterministic simulation: seeded exploration of overlapping transactions with fault injection and an adversary station; differential baseline',
             'Seeded runs of 1-40 overlapping requests over 1-4 slow servers (forced invoke-id collisions, 8-bit counter wrap with pinned live ids, two clients '
-            'with equal ids, IOCB cancel) under hashed drop/dup/delay plans and a promiscuous adversary injecting foreign / wrong-id / replayed frames. '
-            'Oracles: no two live requests of a stack share (peer, id); every ack carries its own request token and payload; no stray confirmation; '
+            'with equal ids, IOCB cancel, unconfirmed traffic to the owing peer) under hashed drop/dup/delay plans and a promiscuous adversary injecting foreign / wrong-id / replayed frames. '
+            'Oracles: no two live requests of a stack share (peer, id); every ack carries its own request token and payload; an I/O control block is completed only by a PDU with its own invoke id; no stray confirmation; segment-acks only in the role of a transfer actually delivered; '
             'the same run without adversary frames has identical per-request outcomes; no re-indication while a server transaction is open.',
             'Trusted: harness attribution by (peer, invoke id, submit order); reuse of an id the client gave up on locally is a legal ambiguity and exempt.',
             'DESIGN.md section 3 (C11)'),
     'C12': ('exploration',
             'deterministic simulation: configuration swarm x boundary payload lengths, wire monitor with independent decoder against capabilities announced on the wire',
             'Each run draws independent capabilities for both sides (six max-APDU sizes x four segmentation values x max-segments x window 1..127), lets both '
-            'announce I-Am and runs echo transactions with lengths on every resulting boundary; 20% of runs add drops/delays. The wire monitor checks every '
+            'announce I-Am and runs echo transactions (both stacks in both roles) with lengths on every resulting boundary; 20% of runs add drops/delays; identity-churn histories (other stations announce, devices move, addresses are taken over, re-announcements with smaller limits before a retry), late I-Ams, transfers segmented in both directions with late segment-acks. The wire monitor checks every '
             'emitted APDU against the max-APDU / max-segments / segmented-response-accepted bits of the request being answered or the I-Am delivered before the '
-            'transfer started, window ranges and negotiation, and that infeasible transfers end in an abort for the requester.',
+            'transfer started, window ranges and negotiation, the window actually used by each sender, and that infeasible transfers end in an abort for the requester.',
             'Trusted: harness decoder and capability model; limits are taken from the wire; I-Am knowledge counts as of the start of a transfer.',
             'DESIGN.md section 3 (C12)'),
     'C13': ('exploration',
